@@ -46,7 +46,7 @@ class Tracer:
             and the span of the header fill (reference runs)
     """
 
-    def __init__(self, repo, event='line', k=None, mech='raise', budget=5_000_000, record=False):
+    def __init__(self, repo, event='line', k=None, mech='raise', budget=5_000_000, record=False, sweep=None):
         self.repo = repo
         self.pkgdir = repo.pkgdir
         election = repo.droop.election.Election
@@ -60,6 +60,13 @@ class Tracer:
         self.event = event
         self.k = k
         self.mech = mech
+        # sweep mode: {event number: [(mech, payload), ...]}.  At each scheduled event the process forks once per
+        # entry; the child delivers the interrupt there (its state is exactly the state of a run interrupted at
+        # that event), the parent reads the child's result and carries on counting.
+        self.sweep = sweep
+        self.sweep_ks = sorted(sweep) if sweep else None
+        self.child = None        # in a forked child: dict(k, mech, payload, w)
+        self.results = []        # in the parent: what the children sent back
         self.budget = budget
         self.record = record
         # results
@@ -121,6 +128,44 @@ class Tracer:
             self.sigint_fallback = True
         raise KeyboardInterrupt()
 
+    def _at(self, frame, n):
+        "a scheduled event was reached: fire (single mode) or fork-and-fire (sweep mode); returns the next k"
+        if self.sweep is None:
+            self._fire(frame, n)
+        import pickle       # pylint: disable=import-outside-toplevel
+        for (mech, payload) in self.sweep[n]:
+            r, w = os.pipe()
+            pid = os.fork()
+            if pid == 0:
+                os.close(r)
+                self.child = dict(k=n, mech=mech, payload=payload, w=w)
+                self.mech = mech
+                self._fire(frame, n)        # raises in the child
+            os.close(w)
+            chunks = []
+            while True:
+                b = os.read(r, 1 << 16)
+                if not b:
+                    break
+                chunks.append(b)
+            os.close(r)
+            try:
+                os.waitpid(pid, 0)
+            except ChildProcessError:
+                pass
+            data = b"".join(chunks)
+            if data:
+                try:
+                    self.results.append(pickle.loads(data))
+                except Exception as e:      # pylint: disable=broad-except
+                    self.results.append(dict(k=n, status='child-garbled', err=repr(e)))
+            else:
+                self.results.append(dict(k=n, status='child-died'))
+        self._ki += 1
+        return self.sweep_ks[self._ki] if self._ki < len(self.sweep_ks) else -1
+
+    _ki = 0
+
     def _build(self):
         st = self
         pkgdir = self.pkgdir
@@ -128,7 +173,10 @@ class Tracer:
         span_codes = self.span_codes
         ev = self.event
         opc = ev == 'opcode'
-        k = self.k if self.k is not None else -1
+        if self.sweep_ks:
+            k = self.sweep_ks[0]
+        else:
+            k = self.k if self.k is not None else -1
         budget = self.budget
         rec = self.record
         site_ids = {}
@@ -165,11 +213,11 @@ class Tracer:
                 pass
 
         def local(frame, event, arg):    # pylint: disable=unused-argument
-            nonlocal n
+            nonlocal n, k
             if event == ev:
                 n += 1
                 if n == k:
-                    st._fire(frame, n)
+                    k = st._at(frame, n)
                 if n > budget:
                     st.n = n
                     raise BudgetExceeded(n)
@@ -178,11 +226,11 @@ class Tracer:
             return local
 
         def span_local(frame, event, arg):    # pylint: disable=unused-argument
-            nonlocal n, span_depth
+            nonlocal n, span_depth, k
             if event == ev:
                 n += 1
                 if n == k:
-                    st._fire(frame, n)
+                    k = st._at(frame, n)
                 if n > budget:
                     st.n = n
                     raise BudgetExceeded(n)
@@ -193,11 +241,11 @@ class Tracer:
             return span_local
 
         def count_local(frame, event, arg):    # pylint: disable=unused-argument
-            nonlocal n
+            nonlocal n, k
             if event == ev:
                 n += 1
                 if n == k:
-                    st._fire(frame, n)
+                    k = st._at(frame, n)
                 if n > budget:
                     st.n = n
                     raise BudgetExceeded(n)
